@@ -79,6 +79,13 @@ func (p *Pool) Put(x interface{}) {
 	p.mu.Unlock()
 }
 
+// Items returns a copy of the pooled objects, oldest first (harness use).
+func (p *Pool) Items() []interface{} {
+	p.mu.Lock()
+	defer p.mu.Unlock()
+	return append([]interface{}(nil), p.items...)
+}
+
 // Len reports the number of pooled objects (harness use).
 func (p *Pool) Len() int { p.mu.Lock(); defer p.mu.Unlock(); return len(p.items) }
 
